@@ -11,12 +11,15 @@ using namespace sev;
 namespace
 {
 // number of distinct objects (by address) and of nodes (with multiplicity) in the tree
-void walk(const RCP<const Basic> &b, std::set<const Basic *> &seen, long long &nodes)
+// (every visited object is kept alive until both trees are counted: get_args() of sums and products builds
+//  temporary nodes, whose addresses would otherwise be reused and make the count depend on the allocator's state)
+void walk(const RCP<const Basic> &b, std::set<const Basic *> &seen, long long &nodes, vec_basic &keep)
 {
     nodes++;
     seen.insert(b.get());
+    keep.push_back(b);
     for (auto &a : b->get_args())
-        walk(a, seen, nodes);
+        walk(a, seen, nodes, keep);
 }
 J bytes_of(const std::string &s)
 {
@@ -47,8 +50,9 @@ SEV_HANDLER(serial)
             d1 = dump(l);
             eqf = eq(*e, *l) ? 1 : 0;
             std::set<const Basic *> s1, s2;
-            walk(e, s1, nodes);
-            walk(l, s2, nodes2);
+            vec_basic keep;
+            walk(e, s1, nodes, keep);
+            walk(l, s2, nodes2, keep);
             objs = (long long)s1.size();
             objs2 = (long long)s2.size();
         });
